@@ -246,14 +246,21 @@ def _log_uniform(rng, lo, hi):
 
 def _variant(rng, G, uni, table, items, rel, scale=None):
     """One rendering of the multiset *items* (already scaled if rel == 'scale')."""
-    form = rng.choice(['string', 'string', 'string', 'formula_string', 'dict', 'struct', 'arith'])
+    if rel == 'reorder':
+        # a pure permutation of the same occurrences: flat, no brackets, no multipliers, no splitting
+        form = rng.choice(['string', 'formula_string', 'dict', 'struct'])
+    else:
+        form = rng.choice(['string', 'string', 'string', 'formula_string', 'dict', 'struct', 'arith'])
     if form == 'dict':
         rows = G.items_text(items)
         rng.shuffle(rows)
         v = {'form': 'dict', 'items': rows, 'shape': 'dict%d' % len(rows)}
     else:
-        its = G.split_some(rng, items) if rng.random() < 0.5 else list(items)
-        tree = G.make_tree(rng, its) if rng.random() < 0.85 else G.flat_tree(rng.sample(its, len(its)))
+        if rel == 'reorder':
+            tree = G.flat_tree(rng.sample(list(items), len(items)))
+        else:
+            its = G.split_some(rng, items) if rng.random() < 0.5 else list(items)
+            tree = G.make_tree(rng, its) if rng.random() < 0.9 else G.flat_tree(rng.sample(its, len(its)))
         want = G.total(items)
         if G.denote(tree) != want:
             raise AssertionError('generator self-check failed: tree %r does not denote %r' % (tree, want))
@@ -280,7 +287,7 @@ def _family(ctx, index, G, uni, table):
     wl = _log_uniform(rng, 0.05, 50.0)
     if rng.random() < 0.15:                              # inside the energy tables
         wl = _log_uniform(rng, 0.4, 6.0)
-    wl_type = rng.choice(['float', 'float', 'float', 'float', 'np.float64', 'int'])
+    wl_type = rng.choice(['float'] * 10 + ['np.float64', 'np.float64', 'int', 'int', 'np.0d'])
     if wl_type == 'int':
         wl = float(rng.randint(1, 30))
     c = G.draw_scale(rng)
@@ -514,6 +521,8 @@ def _scalar(kind, value):
         return int(value)
     if kind == 'np.float64':
         return np.float64(value)
+    if kind == 'np.0d':
+        return np.array(float(value))          # 0-d array: a scalar by shape, outputs must have shape ()
     return float(value)
 
 
